@@ -164,6 +164,8 @@ def gen_case0(rng, tier):
                 cons.append({"label": bad, "sense": '<=', "rhs": "1", **rand_expr(rng, [v for v in vars_ if isinstance(v[0], str)], 2)})
         obj = rand_expr(rng, [v for v in vars_ if why != 'spin_unused' or v[1] != 'SPIN'], 3)
         return {"kind": "refuse", "why": why, "vars": vars_, "obj": obj, "cons": cons, "soft": soft}
+    if r < 0.34:
+        return gen_huge(rng, tier, used)
     nv = rng.choice([0, 1, 2, 3, 4, 6, 9, 14])
     vars_ = gen_vars(rng, tier, used, nv)
     big = rng.random() < 0.5
@@ -177,6 +179,38 @@ def gen_case0(rng, tier):
         cons.append({"label": lab, "sense": rng.choice(list(SENSES)), "rhs": str(rand_coef(rng)), **e})
     probes = [[rng.randint(-2, 3) if rng.random() < 0.8 else str(rng.dyadic(5, 1)) for _ in vars_] for _ in range(2)]
     return {"kind": "trip", "vars": vars_, "obj": obj, "cons": cons, "probes": probes}
+
+
+HUGE = [1e29, 1e30, 3e30, 1e31, 1e100, 1e300, 1.7976931348623157e308, 2.0 ** 100, 9007199254740993.0 * 4]
+REAL_LIMITS = [-1e30, -1e29, -1.5, 0.0, 2.0 ** 70, 1e29, 1e30]
+INT_LIMITS = [-(2 ** 53 - 1), -(2 ** 53 - 2), -(2 ** 40), 0, 2 ** 40, 2 ** 53 - 2, 2 ** 53 - 1]
+
+
+def gen_huge(rng, tier, used):
+    """magnitude stream: right-hand sides and variable bounds at and beyond the limits of the
+    vartypes (+-1e30 for REAL, +-(2^53-1) for INTEGER), all senses; constraint offsets are 0 so
+    that `rhs - offset` is exact; energies are not probed"""
+    vars_ = gen_vars(rng, tier, used, rng.randint(1, 5))
+    for v in vars_:
+        if v[1] == 'REAL' and rng.random() < 0.8:
+            lo, hi = sorted(rng.sample(REAL_LIMITS, 2)) if rng.random() < 0.85 else [rng.choice(REAL_LIMITS)] * 2
+            v[2], v[3] = str(Fraction(lo)), str(Fraction(hi))
+        elif v[1] == 'INTEGER' and rng.random() < 0.8:
+            lo, hi = sorted(rng.sample(INT_LIMITS, 2)) if rng.random() < 0.85 else [rng.choice(INT_LIMITS)] * 2
+            v[2], v[3] = lo, hi
+        if rng.random() < 0.15 and v[1] != 'BINARY':
+            if rng.random() < 0.5 and Fraction(v[3] if v[3] is not None else 1) >= 0:
+                v[2] = None
+            else:
+                v[3] = None
+    obj = rand_expr(rng, vars_, 3)
+    cons = []
+    for _ in range(rng.randint(1, 7)):
+        e = rand_expr(rng, vars_, rng.randint(0, 3))
+        e["off"] = "0"
+        rhs = rng.choice([1, -1]) * rng.choice(HUGE) if rng.random() < 0.9 else float(rand_coef(rng))
+        cons.append({"label": rand_label(rng, tier, used), "sense": rng.choice(list(SENSES)), "rhs": str(Fraction(rhs)), **e})
+    return {"kind": "trip", "huge": True, "vars": vars_, "obj": obj, "cons": cons, "probes": []}
 
 
 def rand_bad_label(rng):
@@ -346,6 +380,16 @@ def run_trip(c):
         py_fail = "soft constraints appeared"
     if py_fail is not None:
         return {"py_fail": py_fail, "features": feats, "observed": text[:2000]}
+    feats["huge"] = bool(c.get("huge"))
+    # sense and finiteness first (a non-finite number cannot be rendered for the exact comparison)
+    for lab, k in cqm.constraints.items():
+        k2 = new.constraints[lab]
+        if k2.sense is not k.sense:
+            return {"py_fail": f"constraint {lab!r}: sense {k.sense.value} -> {k2.sense.value} (rhs {k.rhs!r} -> {k2.rhs!r})",
+                    "features": feats, "observed": text[:2000]}
+        if not (np.isfinite(k2.rhs) and np.isfinite(k2.lhs.offset)):
+            return {"py_fail": f"constraint {lab!r}: rhs {k.rhs!r} (lhs offset {k.lhs.offset!r}) -> {k2.rhs!r} (lhs offset {k2.lhs.offset!r})",
+                    "features": feats, "observed": text[:2000]}
     T = LabelTable(list(cqm.variables))
     n = len(T)
     cons = []
